@@ -224,3 +224,56 @@ func (c *Ctx) DeadBlocks(fn *ssa.Function) (map[*ssa.BasicBlock]bool, []string) 
 	}
 	return dead, assum
 }
+
+// LiveDominates: every path from the entry to b that avoids dead blocks passes through a.
+func (f *FA) LiveDominates(a, b *ssa.BasicBlock) bool {
+	if a == b {
+		return true
+	}
+	if len(f.Fn.Blocks) == 0 {
+		return false
+	}
+	seen := map[*ssa.BasicBlock]bool{}
+	st := []*ssa.BasicBlock{f.Fn.Blocks[0]}
+	for len(st) > 0 {
+		x := st[len(st)-1]
+		st = st[:len(st)-1]
+		if seen[x] || f.Dead[x] || x == a {
+			continue
+		}
+		seen[x] = true
+		if x == b {
+			return false
+		}
+		st = append(st, x.Succs...)
+	}
+	return true
+}
+
+// LiveDominatesInstr is LiveDominates at instruction granularity.
+func (f *FA) LiveDominatesInstr(a, b ssa.Instruction) bool {
+	if a.Block() == b.Block() {
+		return instrIndex(a) <= instrIndex(b)
+	}
+	return f.LiveDominates(a.Block(), b.Block())
+}
+
+// OnNilErrEdgeLive: block b is reached (over live blocks) only after errV was found nil.
+func (f *FA) OnNilErrEdgeLive(errV ssa.Value, b *ssa.BasicBlock) bool {
+	for _, t := range errTests(errV) {
+		if t.nilSucc == t.nonNil {
+			continue
+		}
+		// all live predecessors of nilSucc other than the test block must be dead
+		ok := true
+		for _, p := range t.nilSucc.Preds {
+			if p != t.blk && !f.Dead[p] {
+				ok = false
+			}
+		}
+		if ok && f.LiveDominates(t.nilSucc, b) {
+			return true
+		}
+	}
+	return false
+}
